@@ -148,7 +148,8 @@ def run(ctx):
             ctx.count(key=(n, cs, src, mode), nontrivial=n > cs, kind="%s/%s" % (src, mode))
             if err is not None:
                 # empty centre etc. are C09/C12 matters; here only valid inputs are generated
-                if mode == "centers" and isinstance(err, ValueError) and "contains no data" in str(err):
+                if mode == "centers" and isinstance(err, ValueError) and ("contains no data" in str(err) or "patch centers and patch IDs with data do not match" in str(err)):
+                    # a given centre attracted no record: creation must refuse (C09/C12), not a valid input here
                     ctx.bump("skipped_empty_patch")
                     continue
                 ctx.fail("c18-raises:%s" % type(err).__name__, "valid creation raised %r" % err, spec, case=idx)
